@@ -405,16 +405,38 @@ func (fr *Frame) applyContract(in ssa.Instruction, ci calleeInfo, ct *Contract, 
 	}
 	bindResultNames(names, ci.sig, res)
 	for _, f := range ct.Fresh {
-		if v, ok := names[f]; ok {
-			r := ex.freshRef("fresh_" + f)
-			t := v.T
-			if v.S == SIface {
-				t = fmt.Sprintf("(ival %s)", v.T)
-			} else if v.S == SSlice {
-				t = fmt.Sprintf("(sarr %s)", v.T)
-			}
-			ex.assume(fmt.Sprintf("(= %s %s)", t, r), fr.curReach)
+		// each listed expression denotes a reference allocated by this call, distinct from every other allocation
+		fe, perr := parseExpr(f)
+		if perr != nil {
+			ex.failOb("contract-typechecks", "fresh/"+lastSeg(ci.display), perr.Error(), pos)
+			continue
 		}
+		ec := fr.evalCtx(post, pre)
+		ec.names = names
+		v, err := func() (v Val, err error) {
+			defer func() {
+				if rr := recover(); rr != nil {
+					if e, ok := rr.(evalErr); ok {
+						err = fmt.Errorf("%s", string(e))
+						return
+					}
+					panic(rr)
+				}
+			}()
+			return ec.eval(fe), nil
+		}()
+		if err != nil {
+			ex.failOb("contract-typechecks", "fresh/"+lastSeg(ci.display), err.Error()+" in fresh "+f, pos)
+			continue
+		}
+		r := ex.freshRef("fresh_" + sanitize(f))
+		t := v.T
+		if v.S == SIface {
+			t = fmt.Sprintf("(ival %s)", v.T)
+		} else if v.S == SSlice {
+			t = fmt.Sprintf("(sarr %s)", v.T)
+		}
+		ex.assume(fmt.Sprintf("(= %s %s)", t, r), fr.curReach)
 	}
 	for _, en := range ct.Ensures {
 		ec := fr.evalCtx(post, pre)
@@ -544,46 +566,85 @@ func (fr *Frame) havocTargets(mem *MemState, targets []AssignTarget, ec *EvalCtx
 }
 
 // siteClauses checks "sink"/"at" clauses of the enclosing function's contract that match this call.
+var writeSinkMethods = map[string]bool{"Create": true, "Update": true, "Patch": true, "Delete": true, "DeleteAllOf": true}
+
+func isWriteSink(display string) bool {
+	i := strings.LastIndex(display, ".")
+	if i < 0 || !writeSinkMethods[display[i+1:]] {
+		return false
+	}
+	recv := display[:i]
+	for _, t := range []string{"client.Writer", "client.Client", "client.StatusWriter", "client.SubResourceWriter", "client.WithWatch"} {
+		if strings.HasSuffix(recv, "sigs.k8s.io/controller-runtime/pkg/"+t) {
+			return true
+		}
+	}
+	return false
+}
+
+// siteClauses checks "sink"/"at" clauses of the top function's contract that match this call.
+// Clauses apply to call sites of the function under contract; call sites inside inlined callees are addressed
+// as "<callee function name>:<pattern>". Every API write site must be covered by a sink clause (sink census).
 func (fr *Frame) siteClauses(in ssa.Instruction, c *ssa.CallCommon, display string, ci *calleeInfo, args []Val) {
 	ex := fr.ex
-	if fr.contract == nil || !fr.isTop {
+	top := ex.topContract
+	if top == nil {
 		return
 	}
+	prefix := ""
+	if !fr.isTop {
+		prefix = fr.fn.Name() + ":"
+	}
 	var matched []SiteSpec
-	for _, s := range fr.contract.Sites {
-		if !clauseApplies(s.Cl, ex.Prop) {
+	for _, s := range top.Sites {
+		pat := s.Callee
+		if prefix != "" {
+			if !strings.HasPrefix(pat, prefix) {
+				continue
+			}
+			pat = strings.TrimPrefix(pat, prefix)
+		} else if strings.Contains(pat, ":") {
 			continue
 		}
-		if !siteMatches(display, s.Callee) {
+		if !siteMatches(display, pat) {
 			continue
 		}
-		if s.Ord != 0 && fr.siteOrdinal(in, s.Callee) != s.Ord {
+		if s.Ord != 0 && fr.siteOrdinal(in, pat) != s.Ord {
 			continue
 		}
-		matched = append(matched, s)
+		s2 := s
+		s2.Callee = pat
+		matched = append(matched, s2)
 	}
 	if len(matched) == 0 {
+		if isWriteSink(display) && !ex.sweepOnly {
+			ex.failOb("sink-census", fmt.Sprintf("%s%s#%d", prefix, lastSeg(display), fr.callOrdinal(in, display)),
+				"API write call "+shortName(display)+" in "+fr.fn.Name()+" has no sink clause in the contract of "+shortName(canonName(ex.top)), in.Pos())
+		}
 		return
 	}
 	names := map[string]Val{}
 	if ci != nil {
-		names = fr.bindParams(*ci, nil, args)
-		// positional args arg0.. (excluding receiver)
+		// only positional names (arg0.., recv, varargs): callee parameter names must not shadow the caller's locals
+		if ci.recv != nil {
+			names["recv"] = *ci.recv
+		}
 		off := 0
 		if ci.sig != nil && ci.sig.Recv() != nil && !ci.invoke {
 			off = 1
 		}
 		for i := off; i < len(args); i++ {
-			v := args[i]
-			names[fmt.Sprintf("arg%d", i-off)] = v
+			names[fmt.Sprintf("arg%d", i-off)] = args[i]
 		}
-		// variadic argument slices: expose element type
 		if ci.sig != nil && ci.sig.Variadic() && len(args) > 0 {
 			names["varargs"] = args[len(args)-1]
 		}
+		if cc := callCommonOf(in); cc != nil && ci.sig != nil && ci.sig.Variadic() && len(cc.Args) > 0 {
+			names["dryrun"] = Val{T: fr.varargsHaveGlobal(cc.Args[len(cc.Args)-1], "DryRunAll"), S: SBool}
+		}
 	}
 	for i, s := range matched {
-		ec := fr.evalCtx(fr.curMem, fr.entryMem)
+		ec := fr.evalCtx(fr.curMem, ex.topEntry)
 		ec.names = names
 		ec.at = in
 		ec.goal = true
@@ -593,12 +654,15 @@ func (fr *Frame) siteClauses(in ssa.Instruction, c *ssa.CallCommon, display stri
 			continue
 		}
 		ord := fr.siteOrdinal(in, s.Callee)
+		if i == 0 && s.Kind == "sink" {
+			ex.cover(fmt.Sprintf("sink-%s%s#%d-reachable", sanitize(prefix), sanitize(s.Callee), ord), fr.curReach, "the write site is reachable under the contract's hypotheses", in.Pos())
+		}
 		switch s.Kind {
 		case "sink":
-			ex.oblige("sink", fmt.Sprintf("%s#%d.%d", sanitize(s.Callee), ord, i+1), g, fr.curReach, "call-site precondition of "+s.Callee+": "+s.Cl.Src, in.Pos(), s.Cl.Prop)
+			ex.oblige("sink", fmt.Sprintf("%s%s#%d.%d", sanitize(prefix), sanitize(s.Callee), ord, i+1), g, fr.curReach, "call-site precondition of "+s.Callee+": "+s.Cl.Src, in.Pos(), s.Cl.Prop)
 			ex.assume(g, fr.curReach)
 		case "assert":
-			ex.oblige("assert", fmt.Sprintf("%s#%d.%d", sanitize(s.Callee), ord, i+1), g, fr.curReach, "assertion before "+s.Callee+": "+s.Cl.Src, in.Pos(), s.Cl.Prop)
+			ex.oblige("assert", fmt.Sprintf("%s%s#%d.%d", sanitize(prefix), sanitize(s.Callee), ord, i+1), g, fr.curReach, "assertion before "+s.Callee+": "+s.Cl.Src, in.Pos(), s.Cl.Prop)
 			ex.assume(g, fr.curReach)
 		}
 	}
@@ -606,10 +670,10 @@ func (fr *Frame) siteClauses(in ssa.Instruction, c *ssa.CallCommon, display stri
 
 func (fr *Frame) siteClausesNamed(in ssa.Instruction, display string, pos token.Pos) {
 	ex := fr.ex
-	if fr.contract == nil || !fr.isTop {
+	if ex.topContract == nil || !fr.isTop {
 		return
 	}
-	for i, s := range fr.contract.Sites {
+	for i, s := range ex.topContract.Sites {
 		if !clauseApplies(s.Cl, ex.Prop) || s.Callee != display {
 			continue
 		}
